@@ -35,7 +35,7 @@ package tchannel
 // item; afterwards the id is absent.
 //@ func (r *relayItems) Delete(id uint32) (item relayItem, ok bool)
 //@   nosafety
-//@   modifies allbut nends, ndec, errAttempts, own, Frame
+//@   modifies allbut nends, ndec, errAttempts, own, Frame, Connection, Relayer, sysErrID, sysErrCode, sysErrMsg, lookupHit, nadmit, admitted
 //@   label true-only-for-the-live-to-absent-transition
 //@   ensures ok ==> !item.tomb
 //@   ensures !has(r.items, id)
